@@ -425,7 +425,9 @@ func runC14(c *Ctx, r *Report, tier string) {
 			}
 			_, ok := c.Requires(rfl, isInstr(ret), anyLit(
 				func(l Lit) bool { return !l.Pos && strings.HasPrefix(l.Term, "nonnil(phi{") },
-				func(l Lit) bool { return !l.Pos && strings.HasPrefix(l.Term, "eq(") && strings.Contains(l.Term, "io.EOF") },
+				func(l Lit) bool {
+					return !l.Pos && strings.HasPrefix(l.Term, "eq(") && strings.Contains(l.Term, "io.EOF")
+				},
 			), nil)
 			r.Check(ok, "LONGLINE", rname, "an error does not discard accumulated chunks", c.ipos(ret), "failing return REQ(line == nil ∨ err ≠ io.EOF)", "when the input ends right after a full buffer the chunks read so far are dropped with the EOF: the last line is lost")
 		}
